@@ -400,3 +400,75 @@ def unit_types_sweep():
         res.append(sweep("C02/bounded/DateTime Excel suffix", [0], xl_check, "bounded", "date-only layout under format excel: ' 00:00:00' suffix ignored, other suffixes rejected", function="fields.DateTimeFieldFormat", unit="C02.types", props=["C02", "C17"]))
         return res
     return NativeUnit("C02.types", "bounded stand-ins / axiom audits per field type (Decimal separators, Choice/Constant/Text, Pattern, RegEx, DateTime)", ["C02"], run, kind="bounded")
+
+
+# =====================================================================================================================
+# ChoiceFieldFormat.__init__ / ConstantFieldFormat.__init__ : rule parsing at token level (C02)
+# =====================================================================================================================
+import token as TK
+TOK = Tup(INT, STR)
+
+
+def _tok_models():
+    T2 = sort_of(TOK)
+    def m_tokenize(ex, st, fn, args, kw):
+        it = Ref("TokenIter"); st.heap[it.oid] = {"cursor": 0}; st.ghost["iter"] = it
+        ex.obligations.append(Obligation("tokenizes-the-rule", st.pc, z3.BoolVal(args[0] is st.ghost["rule"]), "post", props=["C02"]))
+        yield st, it
+    def tok_next(ex, st, recv, args, kw):
+        o = st.heap[recv.oid]; T = st.ghost["T"]; c = lift(o["cursor"]).z
+        if not st.ghost.get("started"):
+            sb = st.copy(); sb.ghost["tok_failed"] = True; mm = fresh(STR, "m")[0]; sb.pc.append(z3.Length(mm.z) > 0)
+            yield from raise_new(ex, sb, "InterfaceError", [mm])          # tokenize_without_space converts tokenizer errors (verified shape of G-1)
+        st.ghost["started"] = True
+        if feasible(st.pc, c >= T.length):
+            sb = st.copy(); sb.pc.append(c >= T.length); yield sb, Raise(ex.new_builtin_exc(sb, "StopIteration", []))
+        st.pc.append(z3.And(c >= 0, c < T.length)); o["cursor"] = Sym(INT, c + 1)
+        yield st, Sym(TOK, T.at(c))
+    return m_tokenize, tok_next
+
+
+def _field_init_env(ex, st, cls, rule, allowed_empty):
+    self = Ref(cls); st.heap[self.oid] = {}
+    df = Ref("DataFormat"); st.heap[df.oid] = {"_format": fresh(STR, "fmt")[0]}
+    st.frames[-1].env.update({"self": self, "field_name": fresh(STR, "fname")[0], "is_allowed_to_be_empty": allowed_empty, "length": fresh(STR, "length")[0], "rule": rule, "data_format": df})
+    st.pc.append(z3.Length(lift(st.frames[-1].env["field_name"]).z) > 0)
+    return self
+
+
+def unit_choice_init():
+    T2 = sort_of(TOK); ttype = T2.accessor(0, 0); ttext = T2.accessor(0, 1)
+    def tt(t): return z3.If(ttype(t) == TK.STRING, z3.SubString(ttext(t), 1, z3.Length(ttext(t)) - 2), ttext(t))
+    def is_comma(t): return z3.And(ttype(t) == TK.OP, ttext(t) == ",")
+    def setup(ex, st):
+        T, c = fresh(UFList(TOK), "T"); st.pc.extend(c)
+        n = fresh(INT, "n")[0]; st.pc.append(n.z >= 0); st.pc.append(T.length == n.z + 1); st.pc.append(ttype(T.at(n.z)) == TK.ENDMARKER)
+        j = z3.Int("j"); st.pc.append(z3.ForAll([j], z3.Implies(z3.And(0 <= j, j < n.z), ttype(T.at(j)) != TK.ENDMARKER)))
+        rule = fresh(STR, "rule")[0]; ae = fresh(BOOL, "allowed_empty")[0]
+        self = _field_init_env(ex, st, "ChoiceFieldFormat", rule, ae)
+        st.ghost.update({"T": T, "n": n, "rule": rule, "this": self, "ae": ae, "started": False, "tok_failed": False})
+    def m_range(ex, st, info, args, kw):
+        r = Ref("Range"); st.heap[r.oid] = {"_items": None}; yield st, r
+    def wf_upto(ex, st, k):
+        T = st.ghost["T"]; kk = lift(k).z; j = z3.Int("j!cw")
+        return Sym(BOOL, z3.ForAll([j], z3.Implies(z3.And(0 <= j, j < kk), z3.If(j % 2 == 0, z3.And(z3.Not(is_comma(T.at(j))), tt(T.at(j)) != ""), is_comma(T.at(j))))))
+    def choices_upto(ex, st, lst, k):
+        T = st.ghost["T"]; kk = lift(k).z; j = z3.Int("j!cu")
+        if isinstance(lst, list): return Sym(BOOL, z3.And(z3.BoolVal(len(lst) == 0), kk <= 0))
+        return Sym(BOOL, z3.And(lst.length == (kk + 1) / 2, z3.ForAll([j], z3.Implies(z3.And(0 <= j, j < lst.length), lst.at(j) == tt(T.at(2 * j))))))
+    def cursor(ex, st): return st.heap[st.ghost["iter"].oid]["cursor"]
+    def make(ctx):
+        m_tokenize, tok_next = _tok_models()
+        good = "wf_upto(n) and (n % 2 == 1 or n == 0) and (n > 0 or ae)"
+        c = Contract("fields.ChoiceFieldFormat.__init__", setup,
+                returns=[Clause(good, "accepted-only-a-rule-of-non-empty-values-separated-by-commas-without-trailing-comma-(no-values-only-if-the-field-may-be-empty)", props=["C02", "C09"]),
+                         Clause("choices_upto(this.choices, n)", "the-choices-are-the-values-in-rule-order-(quoted-values-without-their-quotes)", props=["C02"])],
+                raises={"InterfaceError": [Clause(lambda ex, st: Sym(BOOL, z3.Or(z3.BoolVal(bool(st.ghost["tok_failed"])), z3.Not(ex.spec(good, st).z))), "refused-only-if-the-rule-is-not-such-a-list", props=["C02", "C09"])]},
+                loops={0: LoopSpec(invariants=["cursor() >= 1 and cursor() <= n + 1", "implies((cursor() - 1) % 2 == 1, cursor() - 1 == n)", "implies((cursor() - 1) % 2 == 0 and cursor() - 1 > 0, cursor() - 1 < n)", "wf_upto(cursor() - 1)", "choices_upto(this.choices, cursor() - 1)", "toky == T[cursor() - 1]"],
+                                   havoc={"toky": TOK, "choice": STR, "previous_toky_text": Opt(STR), "this.choices": UFList(STR), "iter.cursor": INT})},
+                expect=["return", "InterfaceError"], n_loops=1, raises_only_props=["C02", "C10"])
+        return {"contract": c, "callees": {"_tools.tokenize_without_space": ModelContract(m_tokenize), "ref:TokenIter.__next__": tok_next, "class:Range": m_range},
+                "spec_functions": {"wf_upto": wf_upto, "choices_upto": choices_upto, "cursor": cursor},
+                "assumptions": ["A-TOK: tokenize_without_space(rule) delivers a finite token list ending in one ENDMARKER, or raises InterfaceError for untokenizable text (G-1)",
+                                "_tools.token_text / is_comma_token / is_eof_token are executed as real code (inlined)"]}
+    return ProofUnit("fields.ChoiceFieldFormat.__init__", "ChoiceFieldFormat.__init__: choices = values at even token positions, commas between, no trailing comma (token-level loop invariant)", ["C02", "C09", "C10"], make, None)
